@@ -52,4 +52,20 @@ PROPS = {
         "assumptions": ["the receiving process links the same types (same test binary)", "tag values are strings (the API under test captures only their string form)"],
         "parts": [rapid("annotations", "TestProp", 16000, 320000), rapid("foreign-platform", "TestForeign", 8000, 160000)],
     },
+    "C04": {
+        "pkg": "c04",
+        "level": "exploration",
+        "level_text": "Generated search with shrinking: generated error trees are sent through one or two intermediaries that do not know a drawn subset "
+                      "of the type families present (none, some, all), simulated twice and independently (wire renaming of family names and Any type URLs; "
+                      "true registry restriction through the build-tag hook); text, type names, marks and safe details are compared at the intermediary, "
+                      "the re-encoding is compared byte by byte with what was received, and the final knowing receiver is compared with a direct transfer.",
+        "level_note": "Families named by the known findings F14/F15 are never made unknown (excluded by construction, counted); layers the intermediary "
+                      "does know follow C01's relation (barrier reportable payload exempt).",
+        "technique": "property-based testing (rapid): round-trip / differential oracle through simulated unknowing processes, byte-exact re-encoding comparison",
+        "rule": "rapid-generated error trees over regular strings x subset of the type families on the wire made unknown (all / random bitmask / none) x 1-2 "
+                "intermediaries, each simulated by wire renaming and by registry restriction. Non-trivial = the unknown set contains at least one family of "
+                "the library itself (a type with a custom encoder). Distinct = hash of the case JSON.",
+        "assumptions": ["an unknowing process is a process whose registries lack the type keys (hook) or that sees other names (renaming); both must agree"],
+        "parts": [rapid("passthrough", "TestProp", 6000, 120000)],
+    },
 }
